@@ -2,22 +2,22 @@ SPECIFICATION MCSpec
 CONSTANTS
   Groups = {"g1"}
   GroupOnFollower = FALSE
-  OnlyOpenEnded = TRUE
+  OnlyOpenEnded = FALSE
   CleanupById = FALSE
-  Consumers = {"c1", "c2", "c3"}
-  MaxEpoch = 3
-  MaxSubs = 4
-  MaxOps = 7
+  Consumers = {"c1", "c2"}
+  MaxEpoch = 2
+  MaxSubs = 3
+  MaxOps = 5
   UsePlain = FALSE
   UseBurst = FALSE
-  UseFollower = TRUE
-  UseBounded = TRUE
+  UseFollower = FALSE
+  UseBounded = FALSE
   C0 = "c1"
-  UseRace = FALSE
-  MaxElect = 0
+  UseRace = TRUE
+  MaxElect = 2
   StrandedKnown = TRUE
   UseBad = FALSE
-INVARIANTS C13_OneActive
+INVARIANTS TypeOK MC_OneActive ActiveRegistered RegOK
 PROPERTIES StepsOK
 VIEW MCView
 CHECK_DEADLOCK FALSE
